@@ -100,7 +100,7 @@ def uncovered_lines(files, name):
 
 def measure_gen_monitor(lines, seed, n_iid, n_grid, hostile, extra_env=None, timeout=7200, deep_events=0):
     """Run harness/gen_monitor.cc on `lines` under the coverage build; returns (summary, files)."""
-    exe = build.harness("cov", "gen_monitor", ["gen_monitor.cc"])
+    exe = build.harness("cov", "gen_monitor", ["gen_monitor.cc"], extra_flags="-rdynamic", libs="-ldl")
     bdir = build.variant_dir("cov")
     prefix = tempfile.mkdtemp(prefix="gcda.", dir=bdir)
     spec = os.path.join(prefix, "w.spec")
